@@ -5,15 +5,26 @@ import Driver.C02
 /-!
   driver command of property C16:
   (sortrefl <schema> (ops …) (sorts ((set idx…) "R2" "phrase") …))   → one result per sort:
-  a list of instance indices or `UnknownLinkException`
+  a list of instance indices or `UnknownLinkException`; the ops are C02's plus `(ghost x)`
 -/
 namespace Pyx.Driver.C16
 open Pyx Pyx.Sexp Pyx.Meta Pyx.Reflexive Pyx.Driver.C02
 
+/-- `(ghost x)` = `xtuml.delete(inst, disconnect=False)`: `MetaClass.delete` removes the instance from `storage` (and adds it
+    to `deleted`, which the model reads as "not in the pool") and returns before the disconnect loop: every link stays.
+    Such a state lies outside `LiveOnly` (the state-level theorems do not speak about it); `sortReflexiveSt` reads the
+    links alone, as `xtuml.sort_reflexive` does. A ghost that is not in its pool is the refused delete: state unchanged. -/
+def ghost (s : State) (x : Inst) : State :=
+  if x < s.count ∧ x ∈ s.pool (s.kindOf x) then
+    { s with pool := fun k => if k = s.kindOf x then (s.pool k).erase x else s.pool k }
+  else s
+
 def finalState (sc : Sch) (ops : List Sexp) : State :=
-  ops.foldl (fun s o => match decodeOp sc o with
-    | some op => (step sc.assocs s op).1
-    | none => s) init
+  ops.foldl (fun s o => match o with
+    | list [sym "ghost", int x] => ghost s x.toNat
+    | _ => match decodeOp sc o with
+      | some op => (step sc.assocs s op).1
+      | none => s) init
 
 def runSort (sc : Sch) (s : State) : Sexp → Sexp
   | list [list (sym "set" :: xs), r, p] =>
